@@ -157,6 +157,18 @@ def html_oracle(ctx, docs):
                 ("toc-fenced", dict(base, directives="fenced"), "```{toc}\n```\n\n"), ("all-hardwrap", {"plugins": configs.PLUGINS, "hard_wrap": True}, ""),
                 ("all-tochook-noescape", {"plugins": configs.PLUGINS, "toc_hook": True, "escape": False}, "")]
     pairs = [(nm, configs.make(configs.C(nm, **kw)), configs.make(configs.C(nm, renderer="ast", **{k: v for k, v in kw.items() if k != "toc_hook"})), pre) for nm, kw, pre in variants]
+    # the plugin applied more than once (twice in the list; `use()` on a converter that already has it, as with the pre-built mistune.html):
+    # registration is idempotent for rules, and must be for the section too
+    from mistune.plugins.footnotes import footnotes as _fn_plugin
+    def _twice(renderer):
+        md2 = mistune.create_markdown(renderer=renderer, plugins=["footnotes", "table", "footnotes"])
+        return md2
+    def _used(renderer):
+        md2 = mistune.create_markdown(renderer=renderer, plugins=["strikethrough", "footnotes", "table"])
+        md2.use(_fn_plugin)
+        return md2
+    pairs.append(("footnotes-listed-twice", _twice("html"), _twice("ast"), ""))
+    pairs.append(("footnotes-used-again", _used("html"), _used("ast"), ""))
     n = 0
     for i, doc0 in enumerate(docs):
         nm, md, ast, pre = pairs[0] if i % 2 == 0 else pairs[1 + (i // 2) % (len(pairs) - 1)]
